@@ -11,6 +11,8 @@ from checks import arithcommon as A
 OBLIGATIONS = [
     "C03/P_add_canonical.v",
     "C03/P_mul_canonical.v",
+    "C03/P_pow_canonical.v",
+    "C03/P_div_neg_canonical.v",
     "C03/P_api_reachable_canonical.v",
     "C03/P_fuel_mono.v",
     "C03/P_nonvacuous.v",
